@@ -363,6 +363,12 @@ func runC18(c *Ctx) {
 					kind = "**"
 				}
 			}
+			// the operands of a power are the two halves of the text around "**", however they were split
+			if a0 := ex(call.Call.Args[0]); strings.Contains(a0, ",\"**\"") {
+				kind = "**"
+			} else if kind == "**" {
+				kind = "decimal" // under a `contains "**"` guard but parsing something else
+			}
 			if bits != 64 {
 				kind += "(bits!=64)"
 			}
